@@ -32,6 +32,8 @@ def draw_model(r):
     d['bias'] = {'reshape': 1.6, 'transpose': 1.4, 'slice': 1.4, 'split': 1.4, 'pool': 1.6,
                  'concat': 1.5, 'softmax': 1.6, 'logistic': 1.6, 'tanh': 1.6}
     return d
+  if r.random() < 0.08:
+    return {'kind': 'corpus', 'name': r.choice(modelgen.ERROR_CORPUS)}
   return {'kind': 'corpus', 'name': r.choice(modelgen.CORPUS)}
 
 
